@@ -766,4 +766,204 @@ theorem cowinRefs_eq_count : ∀ (fs : List (HeadInfo × Fate)),
       simp only [filter_cons, hb, Bool.false_and, Bool.false_eq_true, if_false]
       exact ih
 
+/-! ### `state.actions` across the groups -/
+
+theorem scopeOf_incr_ne {a b : Nat} (n : Nat) (hne : a ≠ b) : ∀ t : ActTbl, scopeOf b (incr a n t) = scopeOf b t
+  | [] => rfl
+  | p :: t => by
+    have ih := scopeOf_incr_ne n hne t
+    unfold scopeOf incr at ih ⊢
+    by_cases e : p.1 = a
+    · have hb : (p.1 == b) = false := by simp [e, hne]
+      simp only [map_cons, e, if_true, find?_cons]
+      have hb' : (a == b) = false := by simp [hne]
+      simp only [hb']
+      simpa [e] using ih
+    · simp only [map_cons, e, if_false, find?_cons]
+      cases hb : (p.1 == b) with
+      | true => rfl
+      | false => exact ih
+
+theorem scopeOf_setCount_ne {a b : Nat} (n : Nat) (hne : a ≠ b) : ∀ t : ActTbl, scopeOf b (setCount a n t) = scopeOf b t
+  | [] => rfl
+  | p :: t => by
+    have ih := scopeOf_setCount_ne n hne t
+    unfold scopeOf setCount at ih ⊢
+    by_cases e : p.1 = a
+    · have hb' : (a == b) = false := by simp [hne]
+      simp only [map_cons, e, if_true, find?_cons, hb']
+      simpa [e] using ih
+    · simp only [map_cons, e, if_false, find?_cons]
+      cases hb : (p.1 == b) with
+      | true => rfl
+      | false => exact ih
+
+theorem pickedEffect_frame (w : HeadInfo) (b : Nat) (h : w.act ≠ some b) (t : ActTbl) :
+    scopeOf b (pickedEffect w t) = scopeOf b t := by
+  unfold pickedEffect
+  cases ha : w.act with
+  | none => rfl
+  | some a =>
+    have : a ≠ b := by intro e; apply h; rw [ha, e]
+    simp only
+    split
+    · exact scopeOf_setCount_ne 1 this t
+    · rfl
+
+theorem cowinEffect_frame (w h : HeadInfo) (b : Nat) (hw : w.act ≠ some b) (hh : h.act ≠ some b) (t : ActTbl) :
+    scopeOf b (cowinEffect w h t) = scopeOf b t := by
+  unfold cowinEffect
+  cases hwa : w.act with
+  | none => rfl
+  | some x =>
+    cases hha : h.act with
+    | none => rfl
+    | some a =>
+      have h1 : x ≠ b := by intro e; apply hw; rw [hwa, e]
+      have h2 : a ≠ b := by intro e; apply hh; rw [hha, e]
+      simp only
+      split
+      · rfl
+      · rw [scopeOf_del_ne h2, scopeOf_incr_ne _ h1]
+
+/-- fates of heads that do not hold action `b`, processed under a current winner that does not hold it either,
+    leave `b` alone -/
+theorem applyFates_frame (b : Nat) : ∀ (fs : List (HeadInfo × Fate)) (cw : Option HeadInfo) (t : ActTbl),
+    (∀ p ∈ fs, p.1.act ≠ some b) → (∀ w, cw = some w → w.act ≠ some b) →
+    scopeOf b (applyFates cw fs t) = scopeOf b t
+  | [], _, _, _, _ => by simp [applyFates]
+  | (h, f) :: fs, cw, t, hall, hcw => by
+    have hh : h.act ≠ some b := hall (h, f) mem_cons_self
+    have hall' : ∀ p ∈ fs, p.1.act ≠ some b := fun p hp => hall p (mem_cons_of_mem _ hp)
+    cases f with
+    | picked =>
+      simp only [applyFates]
+      rw [applyFates_frame b fs (some h) _ hall' (by intro w e; cases e; exact hh), pickedEffect_frame h b hh]
+    | cowin =>
+      cases cw with
+      | none => simp only [applyFates]; exact applyFates_frame b fs none t hall' (by intro w e; cases e)
+      | some w =>
+        simp only [applyFates]
+        rw [applyFates_frame b fs (some w) _ hall' hcw, cowinEffect_frame w h b (hcw w rfl) hh]
+    | caught =>
+      cases cw <;> simp only [applyFates] <;> exact applyFates_frame b fs _ t hall' hcw
+    | aborted =>
+      cases cw <;> simp only [applyFates] <;> exact applyFates_frame b fs _ t hall' hcw
+
+/-- a list that starts with a picked entry forgets the previous winner -/
+theorem applyFates_picked_head (cw cw' : Option HeadInfo) (w : HeadInfo) (r : List (HeadInfo × Fate)) (t : ActTbl) :
+    applyFates cw ((w, Fate.picked) :: r) t = applyFates cw' ((w, Fate.picked) :: r) t := by
+  cases cw <;> cases cw' <;> simp [applyFates]
+
+theorem applyFates_append : ∀ (a rest : List (HeadInfo × Fate)) (cw : Option HeadInfo) (t : ActTbl),
+    ∃ cw', applyFates cw (a ++ rest) t = applyFates cw' rest (applyFates cw a t)
+  | [], rest, cw, t => ⟨cw, by simp [applyFates]⟩
+  | (h, f) :: a, rest, cw, t => by
+    cases f with
+    | picked =>
+      obtain ⟨cw', e⟩ := applyFates_append a rest (some h) (pickedEffect h t)
+      exact ⟨cw', by simp only [cons_append, applyFates]; exact e⟩
+    | cowin =>
+      cases cw with
+      | none =>
+        obtain ⟨cw', e⟩ := applyFates_append a rest none t
+        exact ⟨cw', by simp only [cons_append, applyFates]; exact e⟩
+      | some w =>
+        obtain ⟨cw', e⟩ := applyFates_append a rest (some w) (cowinEffect w h t)
+        exact ⟨cw', by simp only [cons_append, applyFates]; exact e⟩
+    | caught =>
+      obtain ⟨cw', e⟩ := applyFates_append a rest cw t
+      exact ⟨cw', by cases cw <;> simp only [cons_append, applyFates] <;> exact e⟩
+    | aborted =>
+      obtain ⟨cw', e⟩ := applyFates_append a rest cw t
+      exact ⟨cw', by cases cw <;> simp only [cons_append, applyFates] <;> exact e⟩
+
+theorem resolveGroups_head (one : Int) : ∀ (gs : Groups) (cs : List Nat),
+    resolveGroups one gs cs = [] ∨ ∃ w r, resolveGroups one gs cs = (w, Fate.picked) :: r
+  | [], _ => Or.inl (by simp [resolveGroups])
+  | (k, g) :: gs, cs => by
+    simp only [resolveGroups]
+    by_cases hg : g = []
+    · subst hg
+      rw [resolveGroup_nil, nil_append]
+      exact resolveGroups_head one gs cs.tail
+    · obtain ⟨w, _, _, hr⟩ := resolveGroup_shape one g (cs.headD 0) hg
+      exact Or.inr ⟨w, _, by rw [hr]; rfl⟩
+
+/-- a run of later groups none of whose heads holds `b` leaves `b` alone, whoever won before -/
+theorem applyFates_groups_frame (one : Int) (b : Nat) (gs : Groups) (cs : List Nat) (cw : Option HeadInfo) (t : ActTbl)
+    (hall : ∀ p ∈ resolveGroups one gs cs, p.1.act ≠ some b) :
+    scopeOf b (applyFates cw (resolveGroups one gs cs) t) = scopeOf b t := by
+  rcases resolveGroups_head one gs cs with e | ⟨w, r, e⟩
+  · rw [e]; simp [applyFates]
+  · rw [e] at hall ⊢
+    rw [applyFates_picked_head cw none w r t]
+    exact applyFates_frame b _ none t hall (by intro w e; cases e)
+
+/-- scope count of a winner's action after the whole call -/
+theorem groups_scope_count (one : Int) (w : HeadInfo) (b : Nat) (hb : w.act = some b) (hst : w.isStart = true) :
+    ∀ (gs : Groups) (cs : List Nat) (t : ActTbl), (gkeys gs).Nodup → LoopsOk gs →
+    (w, Fate.picked) ∈ resolveGroups one gs cs → (scopeOf b t).isSome = true →
+    (∀ q ∈ gs, ∀ h ∈ q.2, h ≠ w → h.act ≠ some b) →
+    scopeOf b (applyFates none (resolveGroups one gs cs) t) =
+      some (1 + cowinRefs ((resolveGroups one gs cs).filter (fun p => p.1.loop == w.loop)))
+  | [], _, _, _, _, hw, _, _ => by simp [resolveGroups] at hw
+  | (k, g) :: gs, cs, t, hn, hok, hw, hin, hd => by
+    have hn' : k ∉ gkeys gs ∧ (gkeys gs).Nodup := by simpa [gkeys] using hn
+    have hok' : LoopsOk gs := fun q hq => hok q (mem_cons_of_mem _ hq)
+    have hd' : ∀ q ∈ gs, ∀ h ∈ q.2, h ≠ w → h.act ≠ some b := fun q hq => hd q (mem_cons_of_mem _ hq)
+    simp only [resolveGroups, mem_append] at hw ⊢
+    rw [filter_append]
+    rcases hw with hw | hw
+    · -- the winner is in the first group
+      have hwg : w ∈ g := mem_resolveGroup_fst hw
+      have hwl : w.loop = k := hok (k, g) mem_cons_self w hwg
+      have hrest : ∀ p ∈ resolveGroups one gs cs.tail, p.1.loop ≠ w.loop ∧ p.1.act ≠ some b := by
+        intro p hp
+        obtain ⟨q, hq, c, hc⟩ := mem_resolveGroups hp
+        have hpq := mem_resolveGroup_fst hc
+        have hl : p.1.loop = q.1 := hok' q hq _ hpq
+        have hne : p.1.loop ≠ w.loop := by
+          rw [hl, hwl]; intro e; exact hn'.1 (e ▸ mem_map_of_mem hq)
+        exact ⟨hne, hd' q hq _ hpq (by intro e; exact hne (by rw [e]))⟩
+      have hf1 : (resolveGroup one g (cs.headD 0)).filter (fun p => p.1.loop == w.loop) = resolveGroup one g (cs.headD 0) := by
+        rw [filter_eq_self]
+        intro p hp
+        simp only [beq_iff_eq]
+        rw [hwl]; exact hok (k, g) mem_cons_self _ (mem_resolveGroup_fst hp)
+      have hf2 : (resolveGroups one gs cs.tail).filter (fun p => p.1.loop == w.loop) = [] := by
+        rw [filter_eq_nil_iff]
+        intro p hp; simpa using (hrest p hp).1
+      rw [hf1, hf2, append_nil]
+      obtain ⟨cw', e⟩ := applyFates_append (resolveGroup one g (cs.headD 0)) (resolveGroups one gs cs.tail) none t
+      rw [e, applyFates_groups_frame one b gs cs.tail cw' _ (fun p hp => (hrest p hp).2)]
+      exact group_scope_count one g _ t w b hw hb hst hin
+        (fun h hh hu => hd (k, g) mem_cons_self h hh (by intro e; exact hu (by rw [e])))
+    · -- the winner is in a later group
+      obtain ⟨q, hq, c, hc⟩ := mem_resolveGroups hw
+      have hwl : w.loop = q.1 := hok' q hq _ (mem_resolveGroup_fst hc)
+      have hkl : k ≠ w.loop := by
+        rw [hwl]; intro e; exact hn'.1 (e ▸ mem_map_of_mem hq)
+      have hfirst : ∀ p ∈ resolveGroup one g (cs.headD 0), p.1.loop ≠ w.loop ∧ p.1.act ≠ some b := by
+        intro p hp
+        have hpg := mem_resolveGroup_fst hp
+        have hl : p.1.loop = k := hok (k, g) mem_cons_self _ hpg
+        have hne : p.1.loop ≠ w.loop := by rw [hl]; exact hkl
+        exact ⟨hne, hd (k, g) mem_cons_self _ hpg (by intro e; exact hne (by rw [e]))⟩
+      have hf1 : (resolveGroup one g (cs.headD 0)).filter (fun p => p.1.loop == w.loop) = [] := by
+        rw [filter_eq_nil_iff]
+        intro p hp; simpa using (hfirst p hp).1
+      rw [hf1, nil_append]
+      obtain ⟨cw', e⟩ := applyFates_append (resolveGroup one g (cs.headD 0)) (resolveGroups one gs cs.tail) none t
+      rw [e]
+      have hsc : scopeOf b (applyFates none (resolveGroup one g (cs.headD 0)) t) = scopeOf b t :=
+        applyFates_frame b _ none t (fun p hp => (hfirst p hp).2) (by intro w e; cases e)
+      rcases resolveGroups_head one gs cs.tail with e2 | ⟨w2, r, e2⟩
+      · rw [e2] at hw; simp at hw
+      · have := groups_scope_count one w b hb hst gs cs.tail (applyFates none (resolveGroup one g (cs.headD 0)) t) hn'.2 hok' hw
+          (by rw [hsc]; exact hin) hd'
+        rw [e2] at this ⊢
+        rw [applyFates_picked_head cw' none w2 r _]
+        exact this
+
 end NemoVerif.Conflict
